@@ -11,8 +11,8 @@ def prop( pid, rules, decides, not_decided, technique, thorough_rules=(), assump
                        assumptions=list( assumptions ))
 
 
-prop( 'C05', [ 'S-STATUS', 'D-VALIDATE', 'W-ATTR', 'T-ALLOWED', 'T-TYPENAMES', 'K-KEYPASS', 'G-INIT' ],
-      decides='S-STATUS: typestate of data.status over the statement CFG of every CIP request handler - at every statement inside '
+prop( 'C05', [ 'S-STATUS', 'D-VALIDATE', 'W-ATTR', 'T-ALLOWED', 'T-TYPENAMES', 'K-KEYPASS', 'G-INIT', 'D-PATHSTOP' ],
+      decides='D-PATHSTOP (unknown-tag clause): device.resolve never skips a SYMBOLIC path segment - its skip test is false on every symbolic cell of the decision table and skipping is per segment ( continue, not break ), so a name behind a resolved tag ( A.foo, A[1].foo ) is resolved or refused, not served from A.  S-STATUS: typestate of data.status over the statement CFG of every CIP request handler - at every statement inside '
               'the try that may raise, the status is a known non-success constant (so a refused request is answered with a failure), '
               'the handler never re-raises or resets it, and at the named program points of Logix.request the codes are 0x05 (resolve/lookup), '
               '0xFF/0x2107 (type assert), 0xFF/0x2105 (reply_elements); UCMM converts any exception to a non-zero encapsulation status. '
@@ -55,15 +55,15 @@ prop( 'C19', [ 'M-EXTENT', 'M-TILE', 'M-BANK', 'M-LIMIT' ],
       not_decided='disjointness/limit/reach arithmetic over all numeric inputs.',
       technique='def-use shape of the sweep loop (AST); guard conjunct classification' )
 
-prop( 'C20', [ 'T-TNET', 'P-CHAIN', 'G-CHUNK', 'G-REF' ],
+prop( 'C20', [ 'T-TNET', 'P-CHAIN', 'G-CHUNK', 'G-REF', 'P-SEPARATORS' ],
       decides='T-TNET: every type tag dump/dump_dict/dump_list emits has a parse branch whose conversion is the enumerated inverse of '
               'the encoder idiom (same encoding name on both sides), dispatch is by exact type, payload framing splits at the first '
-              'colon and slices exactly the declared length, and the streaming machine has a DATA edge for every tag its TYPE state handles.  T-TNET also: the incremental parser converts each tag like tnetstrings.parse (same decoder kind; for text the batch parser\'s default codec).',
-      not_decided='value round trip for all values, nesting depth, chunking (dynamic).',
+              'colon and slices exactly the declared length, and the streaming machine has a DATA edge for every tag its TYPE state handles.  T-TNET also: the incremental parser converts each tag like tnetstrings.parse (same decoder kind; for text the batch parser\'s default codec).  P-SEPARATORS: the chunking clause of tnet_from that is visible in its shape - on every path from the site where a received block is chained back to the engine a discard of the ignored symbols is passed, that discard is guarded by source.sent == <marker only ever holding source.sent, set ahead of each engine run> (so payload bytes are never discarded) and the marker follows each discarded symbol.',
+      not_decided='value round trip for all values, nesting depth; chunking beyond the separator / chain-unmodified / chunk-transparent-grammar clauses (dynamic).',
       technique='encoder/decoder idiom classification over dispatch chains (AST pattern matching); grammar extraction' )
 
-prop( 'C03', [ 'W-ATTR', 'D-VALIDATE', 'R-SNAPSHOT', 'D-TYPE', 'T-TYPENAMES', 'T-ATTRKEYS', 'T-SYMBOL', 'D-PATHSTOP', 'K-KEYPASS' ],
-      decides='storage-discipline clauses only.  W-ATTR: tags are mutated only by statements reachable for the write services '
+prop( 'C03', [ 'W-ATTR', 'D-VALIDATE', 'R-SNAPSHOT', 'D-TYPE', 'T-TYPENAMES', 'T-ATTRKEYS', 'T-SYMBOL', 'D-PATHSTOP', 'K-KEYPASS', 'T-RETAG' ],
+      decides='T-RETAG: setup_tag stores the CONFIGURED Attribute into the instance\'s attribute table at both sites (creation, replacement of an existing tag) - a replacement that stores the existing Attribute back keeps serving the array of an earlier configuration.  storage-discipline clauses only.  W-ATTR: tags are mutated only by statements reachable for the write services '
               '(Write Tag, Write Tag Fragmented, Set Attribute Single) - no read service and no refused request changes a tag; '
               'D-VALIDATE: the tag store is dominated by type and range validation, the stored slice is the validated (beg,end), the write-capacity '
               'guard compares against the requested extent and Attribute slices cannot truncate or extend the underlying list (a write changes '
@@ -269,7 +269,7 @@ prop( 'C15', [ 'B-ROUTE', 'D-REFUSE', 'C-MAIN', 'S-STATUS', 'T-SEGMENTS', 'P-BUN
       not_decided='textual route-path parsing (string -> segments) over all strings.',
       technique='exhaustive evaluation of a boolean AST over a finite abstract domain (decision-table check); dominance on the CFG' )
 
-prop( 'C01', [ 'T-TYPES', 'L-AGREE', 'L-DEFAULT', 'L-CODEC', 'T-SEGMENTS', 'T-NCP', 'K-NCPSTATE', 'A-OFFSETS', 'G-FRAME', 'L-SPEC', 'X-SERVICES', 'G-PRIMS', 'G-INIT', 'K-STALEMEMO' ],
+prop( 'C01', [ 'T-TYPES', 'L-AGREE', 'L-DEFAULT', 'L-CODEC', 'T-SEGMENTS', 'T-NCP', 'K-NCPSTATE', 'A-OFFSETS', 'G-FRAME', 'L-SPEC', 'X-SERVICES', 'G-PRIMS', 'G-INIT', 'K-STALEMEMO', 'K-FOWIDTH' ],
       decides='layout-agreement clauses.  T-TYPES: every CIP scalar class has the spec\'s (type code, width, signedness, little-endian byte order), '
               'TYPE.produce packs and state_struct unpacks with the class format, TYPES_SUPPORTED and the 14-row typed_data dispatch are '
               'consistent; L-AGREE: for each of the 24 registered service machines, every layout variant the producer branch can emit '
@@ -281,14 +281,14 @@ prop( 'C01', [ 'T-TYPES', 'L-AGREE', 'L-DEFAULT', 'L-CODEC', 'T-SEGMENTS', 'T-NC
               'address links, size in words, padded/single variants); T-NCP: Network Connection Parameter encode shifts = decode '
               'shifts/masks = spec bit-fields, Large = +16 bits; A-OFFSETS: bundle offset arithmetic is 2+2N on all four sides; G-FRAME: '
               'the 24-byte encapsulation header; L-SPEC: parser and reply-producer layouts equal the hand-written CIP spec layouts; '
-              'X-SERVICES: registered = dispatched = produced service sets.  L-DEFAULT: in every produce() of the codec modules no numeric field is emitted through a truthiness default (`x or C` with C != 0, `x if x else C`, `if x: ... produce( x )`): 0 is a legal wire value, defaults are selected by presence.  K-NCPSTATE: typestate of defaults.Connection\'s coupled pair ( _NCP, _large ) - no decoding property is read between the stores of the two, and a method that stores one stores both.  G-INIT: move_if accumulators are created per parse.  K-STALEMEMO: no produce() uses the presence of a value it stored into the message itself ( item.input ... ) to skip re-encoding it.',
+              'X-SERVICES: registered = dispatched = produced service sets.  L-DEFAULT: in every produce() of the codec modules no numeric field is emitted through a truthiness default (`x or C` with C != 0, `x if x else C`, `if x: ... produce( x )`): 0 is a legal wire value, defaults are selected by presence.  K-NCPSTATE: typestate of defaults.Connection\'s coupled pair ( _NCP, _large ) - no decoding property is read between the stores of the two, and a method that stores one stores both.  G-INIT: move_if accumulators are created per parse.  K-STALEMEMO: no produce() uses the presence of a value it stored into the message itself ( item.input ... ) to skip re-encoding it.  K-FOWIDTH: decision table over ( size class of each connection ) x ( supplied service None / small / large ): interpreting the statements ahead of the first emission of the Forward Open request producer, a cell reaches the emission only with ( service == the code registered with the 32-bit NCP grammar ) == ( the flag selecting DWORD.produce for BOTH NCP words ); every other cell is refused.',
       not_decided='value-dependent behaviour inside a matching layout (string truncation/NUL fill, float NaN round trip, the is_uerr '
                   'look-ahead ambiguity), and that produced bytes re-parse equal for every value - a dynamic round-trip claim.',
       technique='layout IR extraction from both the grammar-construction code (abstract interpretation) and the produce() ASTs, sequence '
                 'acceptance matching; spec-table comparison; linear normalisation' )
 
 prop( 'C14', [ 'L-SPEC', 'K-FORWARDS', 'L-AGREE', 'L-DEFAULT', 'L-CODEC', 'T-TYPES', 'T-SEGMENTS', 'T-NCP', 'K-NCPSTATE', 'A-OFFSETS', 'G-FRAME',
-               'S-STATUS', 'D-VALIDATE', 'W-ATTR', 'T-ALLOWED', 'T-ATTRKEYS', 'D-TYPE', 'X-SERVICES', 'P-REPLYBIT', 'S-EXT', 'G-INIT', 'K-STALEMEMO', 'F-STATUS', 'F-FRAG' ],
+               'S-STATUS', 'D-VALIDATE', 'W-ATTR', 'T-ALLOWED', 'T-ATTRKEYS', 'D-TYPE', 'X-SERVICES', 'P-REPLYBIT', 'S-EXT', 'G-INIT', 'K-STALEMEMO', 'F-STATUS', 'F-FRAG', 'K-FOWIDTH' ],
       decides='spec-layout clause.  L-SPEC: for the messages an independent Logix client uses (Register Session, SendRRData/SendUnitData with '
               'null-address/unconnected and connection-id/connected-data items, Unconnected Send, Forward Open small and large, Forward '
               'Close, Read/Write Tag [Fragmented], Multiple Service Packet, Get/Set Attribute, List Identity item) the parser layout '
